@@ -404,6 +404,9 @@ class Evaluator:
         if c[0] == 'const':
             return bool(c[1])
         if c[0] == 'bool':
+            for a, p in s.assumptions:
+                if a == c:
+                    return p
             vals = [self.decide(s, v) for v in c[2]]
             if c[1] == 'and':
                 if any(v is False for v in vals):
@@ -642,6 +645,12 @@ class Evaluator:
             return args[1]
         t = ('call', f, args, kws)
         s.events.append(Event('call', (t,), e, s.ctx))
+        # list building through ``name.append(v)`` on a local list literal is tracked in the
+        # environment (the element may mention the loop variable: one generic row)
+        if isinstance(e.func, ast.Attribute) and e.func.attr == 'append' and \
+                isinstance(e.func.value, ast.Name) and len(args) == 1 and \
+                s.env.get(e.func.value.id, ('?',))[0] == 'list':
+            s.env[e.func.value.id] = ('list', s.env[e.func.value.id][1] + (args[0],))
         return t
 
 
